@@ -78,6 +78,27 @@ Chars(o) == LET c == SelectSeq(o, LAMBDA t : t.t \in {"text", "space", "raw"})
             IN  [k \in DOMAIN c |-> IF c[k].t = "space" THEN " " ELSE c[k].d]
 I06(p, i, o) == (~RawTextAllowed(p) /\ NoSkipUnsafe(p, i)) => Chars(o) = Expect06(p, St0, i)
 
+\* --- C07: a conforming document passes through unchanged ---------------
+TokConf(p, t) ==
+  CASE t.t \in {"start", "self"} -> /\ ~Blocked(p, t.n) /\ Known(p, t.n) /\ t.n \notin RawEls
+                                   /\ (t.a = <<>> => BareOK(p, t.n))
+                                   /\ NoDupKeys(t.a) /\ \A k \in DOMAIN t.a : AttrConf(p, t.n, t.a[k])
+    [] t.t = "end"     -> ~Blocked(p, t.n) /\ Known(p, t.n)
+    [] t.t = "text"    -> TRUE
+    [] t.t = "comment" -> p.comments
+    [] OTHER           -> FALSE
+Conforming(p, i) == WellNestedPrefix(i) /\ \A k \in DOMAIN i : TokConf(p, i[k])
+SameModForced(p, t, o) == /\ t.t = o.t /\ t.n = o.n /\ t.d = o.d
+                          /\ StripForced(p, t.n, t.a) = StripForced(p, o.n, o.a)
+I07(p, i, o) == Conforming(p, i) => /\ Len(o) = Len(i)
+                                    /\ \A k \in DOMAIN i : SameModForced(p, i[k], o[k])
+
+\* --- C20: re-sanitising sanitised output is a no-op -----------------------
+\* the output read back: adjacent character data merges
+NoDelInsCite(o) == \A k \in DOMAIN o : (o[k].t \in {"start", "self"} /\ o[k].n \in {"del", "ins"}) =>
+                                          ~\E j \in DOMAIN o[k].a : o[k].a[j].k = "cite"
+I20(p, o) == (InClass20(p) \/ (p = UGC /\ NoDelInsCite(o))) => MergeText(Run(p, MergeText(o))) = MergeText(o)
+
 \* --- C05 content clause: the body of script/style never appears ---------
 \* (the element clause is I05 of BM_Sanitize).  In the token model a script/style body is the
 \* text token that directly follows a script/style start or self-closing tag.
